@@ -37,6 +37,10 @@ type gTask struct {
 	UID   string   `json:"uid"` // unique per generated submission (duplicates share Full)
 	Num   int      `json:"num"` // model name
 	Ctx   int      `json:"ctx"`
+	// Lock: named resources taken around the body (top-level tasks only). Locks restrict the
+	// interleavings, they never add behaviour: the model ignores them, the traces stay acceptable,
+	// and "every accepted submission eventually finishes" must hold with them too.
+	Lock map[string]bool `json:"lock,omitempty"`
 }
 
 type nameTable struct {
@@ -122,6 +126,14 @@ func (g *c14gen) graph() []*gTask {
 		for j := 0; j < k; j++ {
 			if g.rng.Chance(30) {
 				t.Waits = append(t.Waits, tops[j].Full)
+			}
+		}
+		if g.rng.Chance(40) {
+			t.Lock = map[string]bool{}
+			for _, r := range []string{"r0", "r1"} {
+				if g.rng.Chance(60) {
+					t.Lock[r] = g.rng.Chance(70)
+				}
 			}
 		}
 		if g.rng.Chance(7) {
@@ -240,7 +252,9 @@ func runGraph(pa *pipApp, rng *RNG, epoch string, tops []*gTask) (ob c14obs) {
 			ctxs = append(ctxs, cs)
 			pa.log.add("S", fmt.Sprintf("%s.%d", epoch, k), true)
 			e, p, _ := guarded(10*time.Second, func() error {
-				return pa.runner.Run(pa.pip(scp, ns, t.Local, t.Waits, t.script(epoch)))
+				p := pa.pip(scp, ns, t.Local, t.Waits, t.script(epoch))
+				p.Lock = t.Lock
+				return pa.runner.Run(p)
 			})
 			ob.Results = append(ob.Results, e == nil && !p)
 			if rng.Chance(30) {
